@@ -43,19 +43,19 @@ def parse(log, prop):
     return outcome, ', '.join(kinds)
 
 
-def one_scratch(name):
+def one_scratch(name, prop=None):
     d = os.path.join(V, 'seeded', name)
-    prop = json.load(open(os.path.join(d, 'meta.json')))['property']
-    subprocess.run([os.path.join(V, 'tools', 'seeded_scratch.sh'), d, 'quick'], stdout=subprocess.PIPE, stderr=subprocess.STDOUT)
+    prop = prop or json.load(open(os.path.join(d, 'meta.json')))['property']
+    subprocess.run([os.path.join(V, 'tools', 'seeded_scratch.sh'), d, 'quick', prop], stdout=subprocess.PIPE, stderr=subprocess.STDOUT)
     logs = sorted([f for f in os.listdir(os.path.join(V, '.work')) if f.startswith(f'seeded_seeded_{name}_') and f.endswith('.log')],
                   key=lambda f: os.path.getmtime(os.path.join(V, '.work', f)))
     log = open(os.path.join(V, '.work', logs[-1])).read() if logs else ''
     return name, prop, log
 
 
-def one_repo(name):
+def one_repo(name, prop=None):
     d = os.path.join(V, 'seeded', name)
-    prop = json.load(open(os.path.join(d, 'meta.json')))['property']
+    prop = prop or json.load(open(os.path.join(d, 'meta.json')))['property']
     st = subprocess.run(['git', '-C', '/repo', 'status', '--porcelain', '--untracked-files=no'], stdout=subprocess.PIPE, text=True).stdout
     if st.strip():
         sys.exit('/repo is not clean')
@@ -97,6 +97,12 @@ def main():
         res[name] = {'property': prop, 'needs': meta.get('what_it_needs_to_manifest', ''), 'outcome': outcome,
                      'caught_by': caught, 'mode': a.mode}
         print(name, prop, outcome, '|', caught)
+        for extra in meta.get('also_check', []):
+            _, _, log2 = (one_scratch if a.mode == 'scratch' else one_repo)(name, extra)
+            o2, c2 = parse(log2, extra)
+            res[name]['outcome'] += f'; ./check {extra}: {o2}'
+            res[name]['caught_by'] += f'; {extra}: {c2}'
+            print(name, extra, o2, '|', c2)
     json.dump(res, open(rp, 'w'), indent=1)
 
 
